@@ -636,6 +636,15 @@ def ravel(a, order="C"):
 
 
 def reshape(a, *shape, order="C"):
+    """ndarray.reshape / np.reshape: NumPy returns a view whenever it can - the result is tagged so that writes through it are refused"""
+    base = asarray(a)
+    out = _reshape(base, *shape, order=order)
+    if isinstance(out, Arr) and out is not base:
+        out.meta["view_of"] = base
+    return out
+
+
+def _reshape(a, *shape, order="C"):
     a = asarray(a)
     if len(shape) == 1 and isinstance(shape[0], (tuple, list)):
         shape = tuple(shape[0])
@@ -645,7 +654,7 @@ def reshape(a, *shape, order="C"):
     if order == "F":
         # a.reshape(shape, order="F") == a.T.reshape(shape[::-1]).T   (.T reverses all axes)
         at = transpose(a) if a.ndim > 1 else a
-        res = reshape(at, *reversed(shape))
+        res = _reshape(at, *reversed(shape))
         return transpose(res) if res.ndim > 1 else res
     tot_fac = tuple(x for ax in a.axes for x in ax)
     total = prod(tot_fac)
